@@ -143,7 +143,7 @@ def main(argv: List[str]) -> int:
                         run.violation(
                             f"reject:{d.pyname}.{a}:{kind}",
                             f"{d.pyname}.{a}: invalid edit ({kind}: {repl!r}) is accepted instead of raising (pass {pas})",
-                            {"input": j, "edit": kind, "replacement": repl, "observed": repr(conv.unstructure(obj))[:400], "pass": pas, "replay": f"converter.structure(<input>, lsprotocol.types.{d.pyname})"},
+                            {"input": j, "edit": kind, "replacement": repl, "observed": _safe_repr(conv, obj), "pass": pas, "replay": f"converter.structure(<input>, lsprotocol.types.{d.pyname})"},
                             True,
                         )
     # ---- frame condition: union hooks must not touch state that switches validation off (they may call
@@ -177,6 +177,13 @@ def main(argv: List[str]) -> int:
         }
     )
     return run.finish(cov)
+
+
+def _safe_repr(conv, obj) -> str:
+    try:
+        return repr(conv.unstructure(obj))[:400]
+    except Exception as e:  # noqa
+        return f"accepted as {obj!r}"[:300] + f" (unstructure raises {type(e).__name__})"
 
 
 def poison_replay(live, mm, res):
